@@ -12,7 +12,7 @@ CONSTANTS
     MaxFrames = 3
     MaxTasks = 0
     MaxDepth = 3
-    Panics = FALSE
+    Panics = TRUE
     MaxSpans = 3
     IncomingKinds <- MC_IncAll
     WithLazy = FALSE
